@@ -45,11 +45,17 @@ let show_ints scale l = if scale && longer l digest_over then "#" ^ digest l els
 (* round 4: Sp Sa Sf Sz = pointer / interface / float64 / struct{} elements (Sz has the one code 0);
    round 5: So Sb Sh Sg = bool (codes 0 1) / uint8 / int16 / float32 *)
 let is_scale kind = String.length kind = 2 && kind.[0] = 'S' && String.contains "ixstpafzobhg" kind.[1]
+(* round 5, thorough tier: Li Lx Ls Lt Lf = the element types of Si Sx Ss St Sf on sets of 2^15 .. 2^16+1
+   members.  The extracted model is quadratic per ranged call (173 s for ONE such line at 65536
+   members), so these lines are not replayed on it: [eval] computes the expected output on OCaml's own
+   balanced-tree sets by the rules of the API (eval_large below) and [spec] decides the property on
+   the implementation's output as for every other line. *)
+let is_large kind = String.length kind = 2 && kind.[0] = 'L' && String.contains "ixstf" kind.[1]
 let parse_case inp =
   match words inp with
-  | [kind; k; ops] when is_scale kind || List.mem kind ["X"; "B"; "H"] ->
-    (is_scale kind, int_of' k, List.map (String.split_on_char ':') (String.split_on_char ';' ops))
-  | [kind; k] when is_scale kind || List.mem kind ["X"; "B"; "H"] -> (is_scale kind, int_of' k, [])
+  | [kind; k; ops] when is_scale kind || is_large kind || List.mem kind ["X"; "B"; "H"] ->
+    (is_scale kind || is_large kind, int_of' k, List.map (String.split_on_char ':') (String.split_on_char ';' ops))
+  | [kind; k] when is_scale kind || is_large kind || List.mem kind ["X"; "B"; "H"] -> (is_scale kind || is_large kind, int_of' k, [])
   | _ -> raise Bad_syntax
 
 (* ---------------------------------------------------------------- model side *)
@@ -164,9 +170,66 @@ let dump_model scale k st i =
     string_of_int (int_of_z (res_ok (M.len m))) ^ (if res_ok (M.isEmpty m) then "E" else "F") ^ ":" ^ mask ^ ":" ^ show_ints scale (sorted l)
     ^ "@" ^ string_of_int (first 0)
 
+(* the expected output of a large line, without the model: the answers of set theory, constructors
+   return a new map, mutators their receiver (Add/AddAll allocate for a nil receiver), no two
+   variables ever share a map.  Only the plain forms of the operations are understood. *)
+module LS = Set.Make (Int)
+let eval_large k ops =
+  let r = Array.make k LS.empty and isnil = Array.make k true in
+  let show l = show_ints true l in
+  let dump i =
+    if isnil.(i) then "n" else
+    let s = r.(i) in
+    string_of_int (LS.cardinal s) ^ (if LS.is_empty s then "E" else "F") ^ ":"
+    ^ String.concat "" (List.init mask_n (fun x -> b01 (LS.mem x s))) ^ ":" ^ show (LS.elements s) ^ "@" ^ string_of_int i in
+  String.concat ";" (List.map (fun p ->
+    let res =
+      try
+        if List.length p > 3 && not (List.mem (List.hd p) ["append"; "appendf"]) then raise Bad_syntax;
+        let v a = let i = int_of' (nth_arg p a) in if i < 0 || i >= k then raise Bad_syntax else i in
+        let l a = ints_of' (nth_arg p a) in
+        let i = v 1 in
+        let ctor s = r.(i) <- s; isnil.(i) <- false; "Snew=0" in
+        let recv s = r.(i) <- s; if isnil.(i) then "Snil=0" else Printf.sprintf "Sv%d=0" i in
+        let recv_alloc s = r.(i) <- s; if isnil.(i) then (isnil.(i) <- false; "Snew=0") else Printf.sprintf "Sv%d=0" i in
+        let b x = "b" ^ b01 x in
+        (match List.hd p with
+         | "new" -> ctor (LS.of_list (l 2))
+         | "nil" -> r.(i) <- LS.empty; isnil.(i) <- true; "Snil=0"
+         | "clone" -> ctor r.(v 2)
+         | "isect" -> (match l 2 with
+             | [] -> ctor LS.empty
+             | j :: rest -> List.iter (fun j -> if j < 0 || j >= k then raise Bad_syntax) (j :: rest);
+               ctor (List.fold_left (fun a j -> LS.inter a r.(j)) r.(j) rest))
+         | "add" -> recv_alloc (LS.union r.(i) (LS.of_list (l 2)))
+         | "addall" -> recv_alloc (LS.union r.(i) r.(v 2))
+         | "rm" -> recv (LS.diff r.(i) (LS.of_list (l 2)))
+         | "rmall" -> recv (LS.diff r.(i) r.(v 2))
+         | "clear" -> recv LS.empty
+         | "pop" -> if LS.is_empty r.(i) then "e0" else
+             let x = int_of' (nth_arg p 2) in r.(i) <- LS.remove x r.(i); "e" ^ string_of_int x
+         | "has" -> b (LS.mem (int_of' (nth_arg p 2)) r.(i))
+         | "hasd" -> let yes = List.filter (fun x -> LS.mem x r.(i)) (l 2) in "h" ^ string_of_int (List.length yes) ^ ":" ^ digest yes
+         | "hasall" -> b (List.for_all (fun x -> LS.mem x r.(i)) (l 2))
+         | "hasany" -> b (List.exists (fun x -> LS.mem x r.(i)) (l 2))
+         | "len" -> "i" ^ string_of_int (LS.cardinal r.(i))
+         | "empty" -> b (LS.is_empty r.(i))
+         | "meets" -> b (not (LS.disjoint r.(i) r.(v 2)))
+         | "sub" -> b (LS.subset r.(i) r.(v 2))
+         | "eq" -> b (LS.equal r.(i) r.(v 2))
+         | "slice" -> "l" ^ b01 (not (LS.is_empty r.(i))) ^ ":.:" ^ show (LS.elements r.(i))
+         | "append" | "appendf" ->
+           let vsnil = nth_arg p 2 = "n" in
+           let pre = if vsnil then [] else l 2 in
+           "l" ^ b01 (not (vsnil && LS.is_empty r.(i))) ^ ":" ^ str_ints pre ^ ":" ^ show (LS.elements r.(i))
+         | _ -> raise Bad_syntax)
+      with Bad_syntax | Failure _ -> "?" in
+    String.concat "/" (res :: List.init k dump)) ops)
+
 let eval inp =
   match (try Some (parse_case inp) with Bad_syntax -> None) with
   | None -> "?"
+  | Some (_, k, ops) when k >= 1 && k <= 8 && (match words inp with kind :: _ -> is_large kind | [] -> false) -> eval_large k ops
   | Some (scale, k, ops) ->
     if k < 1 || k > 8 then "?" else
     let st = ref (fun _ -> None) in
